@@ -18,7 +18,6 @@ import (
 	"testing"
 	"time"
 
-	"github.com/jcmturner/gokrb5/v8/config"
 	"github.com/jcmturner/gokrb5/v8/messages"
 	"github.com/jcmturner/gokrb5/v8/types"
 	"pgregory.net/rapid"
@@ -208,24 +207,6 @@ func firstLines(s string, n int) string {
 	return strings.Join(l, "\n")
 }
 
-func cpStrings(s []string) []string {
-	if s == nil {
-		return nil
-	}
-	return append([]string{}, s...)
-}
-
-func deepCopyConfig(c *config.Config) *config.Config {
-	cp := *c
-	cp.Realms = nil
-	for _, r := range c.Realms {
-		r2 := r
-		r2.KDC, r2.AdminServer, r2.KPasswdServer, r2.MasterKDC = cpStrings(r.KDC), cpStrings(r.AdminServer), cpStrings(r.KPasswdServer), cpStrings(r.MasterKDC)
-		cp.Realms = append(cp.Realms, r2)
-	}
-	return &cp
-}
-
 func run(c Scenario) evid.Verdict {
 	w, err := c10.Build(&c.Spec)
 	if err != nil {
@@ -233,7 +214,7 @@ func run(c Scenario) evid.Verdict {
 	}
 	defer w.Stop()
 	cl := w.NewClient()
-	before := deepCopyConfig(w.Cfg)
+	before := c10.DeepCopyConfig(w.Cfg)
 	var configured []string
 	for _, r := range w.Cfg.Realms {
 		if r.Realm == c10.RealmName(0) {
